@@ -71,8 +71,8 @@ MODEL_CHECK = ("fun c => match model_outcome c with "
 
 
 def gen_cases(rng, tier, escalate=False):
-    n = {"quick": 260, "thorough": 4000}[tier] * (3 if escalate else 1)
-    n_model = {"quick": 8, "thorough": 80}[tier]
+    n = {"quick": 260, "thorough": 3000}[tier] * (3 if escalate else 1)
+    n_model = {"quick": 8, "thorough": 60}[tier]
     cases = []
     for i in range(n):
         lock = i < n_model
